@@ -759,8 +759,28 @@ def run_op(R: Run, ops: Ops, cx: Ctx, op: str, g, corr: bool, cls: str = ""):
     return None
 
 
+def narrow(A, span=38) -> bool:
+    """all six dyadic coefficients fit a common window of `span` bits, so that products with pixel coordinates
+    (<= 2^10, 3 fractional bits) and their sums are exact doubles"""
+    hi, lo = None, None
+    for v in A:
+        v = F(v)
+        if v == 0:
+            continue
+        if v.denominator & (v.denominator - 1):
+            return False
+        top = abs(v.numerator).bit_length() - v.denominator.bit_length()      # ~ floor(log2 |v|)
+        low = (abs(v.numerator) & -abs(v.numerator)).bit_length() - v.denominator.bit_length()  # lowest set bit
+        hi = top if hi is None else max(hi, top)
+        lo = low if lo is None else min(lo, low)
+    return hi is None or hi - lo <= span
+
+
 def base_view_lines(R: Run, ops: Ops, g, cls: str):
     """correspondence lines for the views of one geobox (exact stream)"""
+    if not narrow(tuple(g._affine)[:6]):
+        R.count("skipped-view-lines:not-narrow")
+        return
     GB, _, Affine, TNI = ops.GB, ops.GCP, ops.Affine, ops.TNI
     rng = R.rng
     gs = enc_gb(g)
